@@ -19,6 +19,8 @@ def one(name):
     prop = meta["property"]
     if meta.get("obsolete"):
         return (name, prop, "obsolete", meta["obsolete"][:160])
+    if meta.get("outside_statement"):
+        return (name, prop, "outside the statement", meta["outside_statement"][:200])
     wt = tempfile.mkdtemp(prefix="seedmx-", dir="/var/tmp"); os.rmdir(wt)
     try:
         if subprocess.run("git -C /repo worktree add --detach %s HEAD" % wt, shell=True, capture_output=True).returncode != 0:
